@@ -400,6 +400,11 @@ class BatchRequest:
         if exc_type is None:
             self.batch = Batch(self._requests)
             message, future = self._session.connection.send_batch(self.batch)
+            if future is None:
+                # Only notifications: there is no response to wait for
+                await self._session._send_message(message)
+                self.results = ()
+                return
             self.results = await self._session._send_concurrent(message, future, len(self.batch))
             if self._raise_errors:
                 if any(isinstance(item, Exception) for item in self.results):
